@@ -118,7 +118,7 @@ pub fn generate(rng: &mut Rng, max_ops: usize) -> Workload {
         let len = a.len();
         // an erroring operation, if wanted, comes last
         if last && want_error {
-            let choice = rng.below(9);
+            let choice = rng.below(10);
             let bad = len as i64 + rng.below(3) as i64;
             let line = line_of(&src);
             match choice {
@@ -160,6 +160,14 @@ pub fn generate(rng: &mut Rng, max_ops: usize) -> Workload {
                     src.push_str("let neg_i = 0 - 1\n");
                     src.push_str(&format!("obs({tag}, show_e(a[neg_i]))\n"));
                     descr.push("get(-1)!".into());
+                    error = Some(line + 1);
+                }
+                9 => {
+                    // index assignment exactly one past the end, index in a local
+                    let v = fresh(rng, kind, true);
+                    src.push_str(&format!("let at_i = {len}\n"));
+                    src.push_str(&format!("a[at_i] = {}\n", v.src()));
+                    descr.push(format!("set-local({len})!"));
                     error = Some(line + 1);
                 }
                 8 => {
